@@ -1021,7 +1021,7 @@ func (in *Interp) marshalCall(st *State, f *types.Func, recv Val, call *ast.Call
 }
 
 func (in *Interp) inlineFunc(st *State, fi *FuncInfo, recv Val, args []Val, call *ast.CallExpr) Val {
-	sub := &Interp{w: in.w, fi: fi, info: fi.Pkg.TypesInfo, depth: in.depth + 1, parent: in, shared: in.shared}
+	sub := &Interp{w: in.w, fi: fi, info: fi.Pkg.TypesInfo, depth: in.depth + 1, parent: in, shared: in.shared, loops: in.loops}
 	sub.guards = append(sub.guards, in.guards...)
 	sub.loops = append(sub.loops, in.loops...)
 	env := map[types.Object]Val{}
@@ -1058,7 +1058,7 @@ func (in *Interp) inlineClosure(st *State, cl ClosV, call *ast.CallExpr) Val {
 		return in.resultByType(st, call, "closure")
 	}
 	owner := cl.In
-	sub := &Interp{w: in.w, fi: owner.fi, info: owner.info, depth: in.depth + 1, parent: in, shared: in.shared}
+	sub := &Interp{w: in.w, fi: owner.fi, info: owner.info, depth: in.depth + 1, parent: in, shared: in.shared, loops: in.loops}
 	sub.guards = append(sub.guards, in.guards...)
 	env := map[types.Object]Val{}
 	for k, v := range cl.Env {
